@@ -1,6 +1,7 @@
 #!/bin/bash
 # Regression over all kept seeded changes: each seeded/<ID>[-n]/patch.diff is applied in a private lane (never /repo) and the quick check
 # of ITS OWN property must report a violation (exit 1).   usage: seed_regress.sh <lane> <k> <n>   (this process handles seeds k mod n)
+# env ONLY=C01 restricts the run to the seeds whose owning check is C01.
 # Output: one line per seed "<seed> <own check> exit=<code>"; summary at the end. Lane is left in place (remove with seedlane.sh <lane> --remove).
 lane=$1; k=${2:-0}; n=${3:-1}
 cd "$(dirname "$0")/.." || exit 2
@@ -16,6 +17,7 @@ import json,sys,re
 m=json.load(open('$d/meta.json')).get('verified_by_main_agent',{})
 c=[re.match(r'C\d\d',x).group(0) for x in m.get('caught_by',[]) if re.match(r'C\d\d',x)]
 print('$own' if ('$own' in c or not c) else c[0])" 2>/dev/null || echo $own)
+    if [ -n "${ONLY:-}" ] && [ "$id" != "$ONLY" ]; then i=$((i+1)); continue; fi
     pf=$PWD/$d/patch.diff; [ -f $d/patch_compat.diff ] && pf=$PWD/$d/patch_compat.diff
     out=$(tools/seedlane.sh $lane $pf $id 2>&1)
     code=$(echo "$out" | grep -m1 -E "^$id exit=" | sed -E 's/.*exit=([0-9]+).*/\1/')
